@@ -333,6 +333,23 @@ def _check_rows(model, table, ph, rows, ta, tol, enabled, out, stats):
         # ---------- warnings (C09)
         if "C09" in E:
             w = expected_warnings(model, n, r, ph)
+            if w is not None and spec.get("lim"):
+                from .gen import row_quantities as _rq
+
+                q = _rq(r)
+                for key_, lv in spec["lim"].items():
+                    v_ = q.get(key_)
+                    if v_ is not None and key_ in APPLICABLE[k]:
+                        a_ = abs(v_) if key_ != "tp" else v_
+                        for b_ in lv:
+                            bb = abs(b_) if key_ != "tp" else b_
+                            if (a_ == bb) or (bb != 0 and 0.5 <= abs(a_ / bb) <= 2.0):
+                                stats["c09_near_limit_rows"] += 1
+                                nt_ = getattr(stats, "nt", None)
+                                if nt_ is not None:
+                                    side = "on" if a_ == bb else ("out" if (a_ > bb) == (b_ is lv[1]) else "in")
+                                    nt_.add(("c09", k, key_, side, "hi" if b_ is lv[1] else "lo", vin < 0 if k != "Source" else eff_params(spec)["vo"] < 0, key_ in w[0]))
+                                break
             if w is not None:
                 got = _warnset(r["Warnings"])
                 if got != w[0]:
